@@ -146,6 +146,53 @@ func build(c Case) built {
 	return b
 }
 
+// probes: one minimal use of each lowerable feature. Whether the configured target "has" a feature is
+// taken from esbuild's own decision on the probe (compiled with the same target/engines/overrides and
+// nothing else): if esbuild lowers the probe, no output for that configuration may contain the feature.
+var probes = map[jsref.Feature]string{
+	jsref.FeatOptionalChain: "x = a?.b", jsref.FeatNullishCoalescing: "x = a ?? b", jsref.FeatLogicalAssignment: "a ||= b",
+	jsref.FeatExponent: "x = a ** b", jsref.FeatObjectRestSpread: "x = { ...a }", jsref.FeatOptionalCatchBinding: "try { a() } catch { b() }",
+	jsref.FeatClassField: "class A { x = 1 }", jsref.FeatClassStaticField: "class A { static x = 1 }", jsref.FeatClassPrivateField: "class A { #x = 1; m() { return this.#x } }",
+	jsref.FeatClassPrivateMethod: "class A { #m() {} n() { this.#m() } }", jsref.FeatClassStaticBlock: "class A { static { a() } }",
+	jsref.FeatClassPrivateBrandCheck: "class A { #x; static has(o) { return #x in o } }", jsref.FeatAsyncFunction: "async function f() { await a }",
+	jsref.FeatAsyncGenerator: "async function* f() { yield a }", jsref.FeatForAwait: "async function f() { for await (x of y) a() }",
+	jsref.FeatTemplateLiteral: "x = `a${b}`", jsref.FeatArrow: "x = () => a",
+}
+
+type probeKey struct {
+	target string
+	node   int
+	over   string
+}
+
+var probeCache = map[probeKey]map[jsref.Feature]bool{}
+
+// loweredFeatures returns the features that esbuild itself lowers (or refuses) for this configuration.
+func loweredFeatures(c Case) map[jsref.Feature]bool {
+	key := probeKey{c.Target, c.NodeMajor, fmt.Sprint(c.Unsupported, c.Supported)}
+	if m, ok := probeCache[key]; ok {
+		return m
+	}
+	m := map[jsref.Feature]bool{}
+	for f, code := range probes {
+		pc := Case{Code: code, Target: c.Target, NodeMajor: c.NodeMajor, Unsupported: c.Unsupported, Supported: c.Supported}
+		b := build(pc)
+		if len(b.errors) > 0 {
+			m[f] = true
+			continue
+		}
+		for _, out := range b.files {
+			if p, err := jsref.Parse(out, jsref.Options{Module: true}); err == nil {
+				if _, still := p.Features[f]; !still {
+					m[f] = true
+				}
+			}
+		}
+	}
+	probeCache[key] = m
+	return m
+}
+
 func editionOf(target string) int {
 	var y int
 	fmt.Sscanf(target, "es%d", &y)
@@ -295,6 +342,17 @@ func judge(c Case) vdrv.Verdict {
 				checked++
 			}
 		}
+		// (4) esbuild's own notion of the target: a feature it lowers in a one-line probe must not be emitted
+		for f := range loweredFeatures(c) {
+			if off, ok := prog.Features[f]; ok {
+				if warned {
+					cls = append(cls, "lowered-feature-kept-with-warning")
+					continue
+				}
+				return vdrv.Fail(fmt.Sprintf("esbuild lowers %s for this configuration (target=%q node=%d unsupported=%v) in a one-line probe, but output %s uses it at offset %d", f, c.Target, c.NodeMajor, c.Unsupported, name, off), "feature absent", out)
+			}
+		}
+		checked++
 		// (3) supported overrides
 		for _, f := range c.Unsupported {
 			for _, jf := range featureMap[f] {
